@@ -576,6 +576,35 @@ func keptOracle(i int, fail func(int, string, string, string, string, string, st
 		}
 		return f[3]
 	}
+	// the attributes the caller gives as whole numbers are the attributes the toxic has afterwards
+	// (what the equivalent HTTP request would store), however large
+	if attrsAt := map[string]int{"c add": 7, "c cadd": 7, "cli tadd": 7, "c upd": 5, "c cupd": 5, "cli tupd": 5}[w[0]+" "+w[1]]; attrsAt > 0 && len(w) > attrsAt && w[3] != "-" {
+		pe := e4.ProxyEntry(after, w[2])
+		if k := strings.Index(pe, "T("+w[3]+"|"); k >= 0 {
+			ent := pe[k:]
+			if e := strings.Index(ent, ")"); e >= 0 {
+				ent = ent[:e]
+			}
+			if jv, ok := e4.ParseJV(w[attrsAt]); ok && jv.Kind == "obj" {
+				seen := map[string]int{}
+				for _, kv := range jv.Obj {
+					seen[strings.ToLower(kv.K)]++
+				}
+				for _, kv := range jv.Obj {
+					lit := kv.V.Lit
+					if kv.V.Kind != "num" || strings.ContainsAny(lit, ".eE-") || seen[strings.ToLower(kv.K)] != 1 || kv.K != strings.ToLower(kv.K) {
+						continue
+					}
+					if !strings.Contains(ent, "|"+kv.K+"=") && !strings.Contains(ent, ","+kv.K+"=") {
+						continue // not an attribute of this toxic type
+					}
+					if !strings.Contains(ent+",", kv.K+"="+lit+",") {
+						return fail(i, "oracle", "C19", kv.K+"="+lit, ent, "the caller gave attribute "+kv.K+"="+lit+", the call reported success, but the toxic has another value", "e5:C19:attribute-not-as-given")
+					}
+				}
+			}
+		}
+	}
 	switch {
 	case (w[0] == "cli" && w[1] == "tupd" && w[4] == "-") || (w[0] == "c" && (w[1] == "upd" || w[1] == "cupd") && w[4] == "-"):
 		b, a := toxOf(before, w[2], w[3]), toxOf(after, w[2], w[3])
